@@ -9,6 +9,9 @@ LLSE_NOTE = ('Trusted base: rustc/LLVM up to the emitted IR (the IR is what is c
              'Verdicts hold within the stated structural bounds only; see evidence coverage.bounds / outside_claim.')
 
 CLAIMED = {
+ 'C12': dict(
+    text='Bounded symbolic model checking of the compiled code: for each selected pair of same-dimension units the real VM Add/Subtract opcodes (impl Add/Sub for &Quantity, smaller_unit, convert_to, zero shortcuts) are executed symbolically for a+b, b+a, a-b, b-a with both magnitudes ranging over all doubles; when the units differ in size and not both operands are zero the two orders must give bit-identical magnitudes and structurally identical units (negated for subtraction); otherwise they must denote the same quantity. Each clause is discharged by the solver on every feasible path or refuted with a natively replayed model.',
+    design_ref='DESIGN.md §4 C12', technique='symbolic execution of LLVM IR + SMT (z3 QF_FPBV), native replay'),
  'C11': dict(
     text='Bounded symbolic model checking of the compiled code: for each selected pair of same-dimension standard-library units (with prefixes) the real VM comparison opcodes and Quantity::eq are executed symbolically with both magnitudes ranging over all 2^64 double bit patterns; every feasible path is explored and each of the property\'s clauses (== symmetric, < mirrors >, <= mirrors >=, != negates ==, trichotomy for non-NaN, NaN makes orderings false) is discharged by the solver or refuted with a model that is replayed against the native build. All-values-within-a-pair is the right level because the defect class is a rounding coincidence between two conversion directions that sampling does not hit.',
     design_ref='DESIGN.md §4 C11', technique='symbolic execution of LLVM IR + SMT (z3 QF_FPBV), native replay'),
